@@ -107,6 +107,14 @@ fn token_history(cfg: &Cfg, rep: &mut Report, fl: Flavour, h: u64, steps: usize)
             if got.is_ok() {
                 m.paused = f == "pause";
             }
+            // the flag as the token reports it; a stranger's (signed) pause / unpause must not move it
+            let pz: bool = invoke(e, &tok.addr, "paused", args!(e)).must("paused");
+            rep.check("pause", pz == m.paused, &format!("C16/pause/{}/paused-getter", fl.name()), || format!("after {f} -> {}: paused() = {pz}, model {}", tag(&got), m.paused));
+            let g = if m.paused { "unpause" } else { "pause" };
+            tok.w.auth(&[(tok.u[n - 2].clone(), crate::world::Inv::new(&tok.addr, g, args!(e, tok.u[n - 2])))]);
+            let sg: Result<(), Fail> = invoke(e, &tok.addr, g, args!(e, tok.u[n - 2]));
+            let pz2: bool = invoke(e, &tok.addr, "paused", args!(e)).must("paused");
+            rep.check("auth", sg.is_err() && pz2 == m.paused, &format!("C16/auth/{}/{g}/by-stranger", fl.name()), || format!("{g} by an account that is not the owner: {sg:?}, paused() now {pz2}"));
             continue;
         }
         if (fl.is_allow() || fl.is_block()) && rng.chance(1, 4) {
